@@ -1,5 +1,6 @@
 import Gomjml.Core.LayoutSpec
 import Gomjml.Core.LayoutCount
+import Gomjml.Core.LayoutStd
 /-! # C04 — content fidelity: author content appears once, in order, as authored (property theorems only)
 
 Layout part, on the skeleton model (`t` = one content slot; the combined machine rejects `t` inside an Outlook
@@ -20,7 +21,11 @@ theorem C04_once (bs : List Block) : cnt (render bs) = (bs.map Block.slots).sum 
 example : cnt (render [.section ⟨false, true, false, false, false, false, [.col ⟨true, [.text, .raw]⟩, .group [.col ⟨false, [.text]⟩, .raw false]]⟩,
                        .wrapper ⟨true, false, [.raw true, .sec ⟨true, false, false, true, false, false, []⟩]⟩]) = 5 := by decide
 
-/-- **never only inside an Outlook-only comment, for every body whose wrappers are tame**: the class `content-in-mso` (raw
+/-- **never only inside an Outlook-only comment — the full statement, for EVERY document of the layout grammar**: no content
+    token sits in an Outlook conditional, whatever the wrappers contain.  No side condition. -/
+theorem C04_visible_full (bs : List Block) : Visible ((render bs).map Tok.toG) := (std_spec_all bs).2
+
+/-- **never only inside an Outlook-only comment, for every body whose wrappers are tame** (older, weaker form): the class `content-in-mso` (raw
     content after a section that left the comment open) is repaired in body.go -/
 theorem C04_visible_all_bodies (bs : List Block) (hw : WrappersTame bs) : Visible ((render bs).map Tok.toG) :=
   (wf_spec _ (C02_C03_all bs hw)).2.2
